@@ -152,19 +152,28 @@ def build(case, idx, work):
         kw["packed"] = True
     if case["opts"].get("pack"):
         kw["pack"] = case["opts"]["pack"]
-    base1 = None
+    # included ffis: legacy single "base", or "bases" = {list: [{cdef, inc: [earlier indices]}], main: [indices]}
+    blist, main_inc = [], []
     if case.get("base"):
-        base1 = cffi.FFI()
-        base1.cdef(case["base"])
-        bname = "_c11_b%d" % idx
-        base1.set_source(bname, None)
-        base1.emit_python_code(os.path.join(work, bname + ".py"))
+        blist, main_inc = [dict(cdef=case["base"], inc=[])], [0]
+    if case.get("bases"):
+        blist, main_inc = case["bases"]["list"], case["bases"]["main"]
+    base_ffis = []
+    for k, b in enumerate(blist):
+        bf = cffi.FFI()
+        for j in b["inc"]:
+            bf.include(base_ffis[j])
+        bf.cdef(b["cdef"])
+        bname = "_c11_b%d_%d" % (idx, k)
+        bf.set_source(bname, None)
+        bf.emit_python_code(os.path.join(work, bname + ".py"))
+        base_ffis.append(bf)
     f1 = cffi.FFI()
     try:
         if case.get("pre"):
             f1.cdef(case["pre"], **kw)        # declarations made before ffi.include()
-        if base1 is not None:
-            f1.include(base1)
+        for j in main_inc:
+            f1.include(base_ffis[j])
         f1.cdef(case["cdef"], **kw)
         # force the in-line FFI to accept everything that is declared (lazy errors)
         for n in case["names"]["types"]:
